@@ -32,7 +32,7 @@ SCN = {
     "N-list-tr": ("N", 0, "anc", 0),       # Node.anc : List[Node], transitive with inverse desc (inference writes back into the field)
 }
 NELEM = 4
-LIST_OPS = ["Assign", "AssignSelf", "IAug", "Append", "Extend", "ExtendGen", "Insert", "SetItem"]
+LIST_OPS = ["Assign", "AssignSelf", "IAug", "Append", "Extend", "ExtendGen", "Insert", "SetItem", "SetSlice"]
 SET_OPS = ["Assign", "AssignList", "AssignSelf", "IAug", "Add", "Update", "Update2"]
 
 
@@ -132,6 +132,10 @@ def run_impl(descr) -> Dict[str, Any]:
                 getattr(owner, name).insert(args[0], elems[args[1]])
             elif k == "SetItem":
                 getattr(owner, name)[args[0]] = elems[args[1]]
+            elif k == "SetSlice":
+                getattr(owner, name)[args[0]:args[1]] = [elems[i] for i in args[2]]
+            elif k == "SetSliceGen":           # the slice value is a one-shot iterator
+                getattr(owner, name)[args[0]:args[1]] = (elems[i] for i in args[2])
             elif k == "Add":
                 getattr(owner, name).add(elems[args[0]])
             elif k == "Update":
@@ -239,6 +243,8 @@ def op_term(op) -> str:
         return f"Insert ({args[0]})%Z {args[1]}"
     if k == "SetItem":
         return f"SetItem ({args[0]})%Z {args[1]}"
+    if k in ("SetSlice", "SetSliceGen"):
+        return f"SetSlice ({args[0]})%Z ({args[1]})%Z {nl(args[2])}"
     if k == "Add":
         return f"Add {args[0]}"
     if k == "Update":
@@ -257,6 +263,9 @@ def model_term(d) -> str:
         return f"ctor_alias_out {nl(d['init'])} {d['x']}"
     if any(op[0] == "ExtendSelf" for op in d["ops"]):
         return f"extend_self_out 2000 {nl(d['init'])}"
+    if d["ops"] and d["ops"][0][0] == "SetSliceGen":
+        o = d["ops"][0]
+        return f"slice_gen_out ({o[1]})%Z ({o[2]})%Z {nl(o[3])} {nl(d['init'])}"
     return f"model_out {kterm(d['scn'])} [{'; '.join(op_term(o) for o in d['ops'])}] {nl(d['init'])}"
 
 
@@ -287,6 +296,8 @@ def gen_case(rng: core.Rng, scn: str) -> dict:
             ops.append([k, x])
         elif k in ("Insert", "SetItem"):
             ops.append([k, rng.randint(-4, 5), x])
+        elif k == "SetSlice":
+            ops.append([k, rng.randint(-4, 5), rng.randint(-4, 5), vs])
         elif k == "Update2":
             ops.append([k, [[rng.randint(0, NELEM - 1) for _ in range(rng.randint(0, 2))] for _ in range(rng.randint(0, 3))]])
     return {"scn": scn, "init": init, "ops": ops, "default_ctor": rng.chance(0.5)}
@@ -329,12 +340,12 @@ def run(tier: str, seed: int, replay=None) -> int:
     ]
     rep.assume = [
         "the field is written by its owner with fresh arguments (lists, sets, generators) or with itself for assignment / += / |=; "
-        "K_extend_self (x.f.extend(x.f)) and K_ctor_alias (another object's managed container given to a constructor) are outside the fragment (known findings)",
-        "item assignment with integer indices (slices are compared with Python in the corpus only)",
+        "K_extend_self (x.f.extend(x.f)), K_ctor_alias (another object's managed container given to a constructor) and K_slice_generator (x.f[i:j] = generator) are outside the fragment (known findings with _refuted theorems)",
+        "item assignment with an integer index or a step-1 slice whose value is a list (a generator as slice value is consumed by the recording hook before the builtin sees it: not generated)",
         "remove / pop / clear / del are not in the property's list of writes (the graph never retracts)",
     ]
     rep.rule = ("random histories of 1-7 operations (assignment of a fresh list/set, self-assignment, += / |=, append, extend with a list or a generator, "
-                "insert and item assignment with indices in -4..5, add, update with 1 or 0-3 iterables) from random initial contents given to the constructor, "
+                "insert, item assignment and slice assignment with indices in -4..5, add, update with 1 or 0-3 iterables) from random initial contents given to the constructor, "
                 "on Person.member_of, Company.members, Node.a, Node.b; elements drawn with repetition from 4 objects; "
                 "non-trivial = at least one operation changes the contents; distinct = distinct (scenario, initial contents, history)")
     ok_spec, log = core.coq_make(["Base/Sx.vo", "Onto/ContainerSpec.vo", "Onto/ClosureSpec.vo"])
@@ -346,7 +357,11 @@ def run(tier: str, seed: int, replay=None) -> int:
     findings = core.load_findings(PROP)
     corpus = corpus_cases()
     if replay:
-        descrs, corpus = [replay["case"]], []
+        descrs = [replay["case"]]
+        strip = lambda c: {k: v for k, v in c.items() if k not in ("comment", "group")}
+        corpus = [(n, c) for n, c in corpus if strip(c) == strip(replay["case"])][:1]   # a replayed witness keeps its finding
+        if not corpus:
+            corpus = []
     else:
         descrs = [c for _, c in corpus] + gen_cases(tier, seed)
     impls = run_workers(descrs)
@@ -393,6 +408,14 @@ def run(tier: str, seed: int, replay=None) -> int:
                 problems.append("x.f.extend(x.f) does not terminate (stopped by the harness guard); Python doubles the list")
             if model_ok:
                 model_agrees = (mo == -1) == bool(problems)
+        elif d["ops"] and d["ops"][0][0] == "SetSliceGen":
+            rep.count(json.dumps(d), True)
+            spec_tr = canon_trace([[c, e] for c, e in sp][1:], kind)      # Python: the same as a list value
+            impl_tr = canon_trace(im["trace"], kind)
+            if impl_tr != spec_tr:
+                problems.append(f"slice assignment of a generator: field {impl_tr} but plain Python gives {spec_tr}")
+            if model_ok:
+                model_agrees = (mo[0] == impl_tr[-1][0] and sorted(set(mo[1])) == im["recorded"])
         else:
             spec_tr = canon_trace([[c, e] for c, e in sp][1:], kind)
             impl_tr = canon_trace(im["trace"], kind)
